@@ -14,6 +14,8 @@ PROBE_CLASSES = {
     "p7": ["s-bash\tfor bash", "sb2"],
     "p8": ["t1"],
     "p9": ["u1", "u2\tsecond"],
+    # prefix-related candidates, the shorter one printed first (the within-word matcher has to try the longer one first)
+    "p10": ["ab", "abc\tlonger one", "abd"],
 }
 DEFAULT_WB = " \t\n\"'><=;|&(:"
 
